@@ -30,6 +30,7 @@ type Plan struct {
 	NoFaults    bool           `json:"noFaults,omitempty"`
 	Saturate    bool           `json:"saturate,omitempty"`
 	CronDupPm   int            `json:"cronDupPm,omitempty"`
+	WebhookDown []LagPlan      `json:"webhookDown,omitempty"` // windows in which the admission webhooks are unreachable
 	Config      *ConfigPlan    `json:"config,omitempty"`
 	Twin        bool           `json:"twin,omitempty"`
 }
